@@ -46,7 +46,7 @@ Tick == 1000
 S == {Decl[i].s : i \in DOMAIN Decl}
 D(s) == CHOOSE d \in RangeOf(Decl) : d.s = s
 KindOf(s) == D(s).kind
-NC(s) == IF KindOf(s) = "comp" THEN Len(D(s).children) ELSE IF KindOf(s) \in {"ping", "chan", "exec"} THEN 1 ELSE 0
+NC(s) == IF KindOf(s) = "comp" THEN Len(D(s).children) ELSE IF KindOf(s) \in {"ping", "chan", "exec", "stream"} THEN 1 ELSE 0
 IsExec(s) == KindOf(s) = "exec"
 FdOfM(s, c) == D(s).fds[c]
 AllFds == UNION {RangeOf(D(s).fds) : s \in S}
@@ -75,6 +75,7 @@ VARIABLES
     handles,     \* per ping source: live Ping handles held by the driver;
                  \* per channel source: [q: queued messages, snd: live senders, closed: Closed delivered, n: messages sent]
                  \* per executor: [futs: f -> [st, rdy, v, wk, polls], runq: runnables in the mpsc queue, notified, n]
+                 \* per stream source: [q: items not yet yielded, ended, wk: the stream holds the source's waker, n]
     tdl,         \* per timer: [has, v] the deadline the Timer holds
     treg,        \* per timer: [on, key, ctr] its Registration
     heap,        \* set of [dl, key, ctr]
@@ -271,8 +272,9 @@ Init ==
   /\ gtok = [s \in S |-> [c \in 1..NC(s) |-> NoTok]]
   /\ kern = [f \in AllFds |-> [on |-> FALSE, key |-> NoTok, r |-> FALSE, w |-> FALSE, mode |-> "level", armed |-> FALSE]]
   /\ rdy = [f \in AllFds |-> 0] /\ edgeq = {}
-  /\ pingCnt = [s \in S |-> 0] /\ closeBit = [s \in S |-> "no"] /\ handles = [s \in S |-> IF KindOf(s) = "chan" THEN [q |-> <<>>, snd |-> 1, closed |-> FALSE, n |-> 0]
-                                 ELSE IF KindOf(s) = "exec" THEN [futs |-> <<>>, runq |-> <<>>, notified |-> FALSE, n |-> 0] ELSE 1]
+  /\ pingCnt = [s \in S |-> IF KindOf(s) = "stream" THEN 1 ELSE 0] /\ closeBit = [s \in S |-> "no"] /\ handles = [s \in S |-> IF KindOf(s) = "chan" THEN [q |-> <<>>, snd |-> 1, closed |-> FALSE, n |-> 0]
+                                 ELSE IF KindOf(s) = "exec" THEN [futs |-> <<>>, runq |-> <<>>, notified |-> FALSE, n |-> 0]
+                                 ELSE IF KindOf(s) = "stream" THEN [q |-> <<>>, ended |-> FALSE, wk |-> FALSE, n |-> 0] ELSE 1]
   /\ tdl = [s \in S |-> [has |-> D(s).hasdl = 1, v |-> D(s).dl]]
   /\ treg = [s \in S |-> [on |-> FALSE, key |-> NoTok, ctr |-> 0]]
   /\ heap = {} /\ expired = {} /\ nextCtr = 0 /\ now = 0
@@ -440,6 +442,18 @@ WakeFut(name, s, f) ==
         /\ pingCnt' = [pingCnt EXCEPT ![s] = IF woken /\ ~h.notified THEN (IF @ < 2 THEN @ + 1 ELSE @) ELSE @]
         /\ Emit(WithSnap(<<OpEv(name, IF name = "complete" THEN [s |-> s, f |-> f, v |-> v] ELSE [s |-> s, f |-> f]),
                            RetEv(name, IF fu.wk THEN "ok" ELSE "nowaker", <<>>)>>))
+
+\* the driver feeds the stream: an item, or its end; the stream wakes the waker it was polled with (a ping)
+Push(name, s) ==
+  /\ CanOp(name) /\ KindOf(s) = "stream" /\ ~handles[s].ended /\ handles[s].n < 3 /\ Budget
+  /\ UNCHANGED <<slots, lifeSet, pending, idles, issued, obj, heldD, enabled, gtok, kern, rdy, edgeq, closeBit,
+                 tdl, treg, heap, expired, nextCtr, now, pc, cbCount, nfaults, nextIdle, failNext>>
+  /\ LET h == handles[s]
+         m == s * 100 + h.n + 1
+     IN /\ handles' = [handles EXCEPT ![s] = IF name = "push" THEN [h EXCEPT !.q = Append(@, m), !.n = @ + 1, !.wk = FALSE]
+                                                            ELSE [h EXCEPT !.ended = TRUE, !.wk = FALSE]]
+        /\ pingCnt' = [pingCnt EXCEPT ![s] = IF h.wk /\ obj[s] # "gone" THEN (IF @ < 2 THEN @ + 1 ELSE @) ELSE @]
+        /\ Emit(WithSnap(<<OpEv(name, IF name = "push" THEN [s |-> s, m |-> m] ELSE [s |-> s]), RetEv(name, "ok", <<>>)>>))
 
 Wr(s, c) ==
   /\ CanOp("wr") /\ KindOf(s) = "comp" /\ c \in 1..NC(s) /\ obj[s] # "gone" /\ Budget
@@ -682,6 +696,23 @@ ProcessBegin ==
                   /\ closeBit' = [closeBit EXCEPT ![s] = IF @ = "pending" THEN "seen" ELSE @]
                   /\ Emit(<<PeEv(s), [e |-> "peret", s |-> s, act |-> IF closeBit[s] = "pending" THEN "remove" ELSE "continue", us |-> Us]>>)
                   /\ UNCHANGED <<pingCnt, cbCount, expired, handles>>
+        ELSE IF KindOf(s) = "stream"
+        THEN \* the inner ping source drains the eventfd; then poll_next until Pending (no batch limit)
+             IF pingCnt[s] = 0
+             THEN /\ pc' = "post" /\ dsp' = [dsp EXCEPT !.ev = <<0, 0, 0>>, !.act = "continue"]
+                  /\ UNCHANGED <<pingCnt, closeBit, cbCount, expired, handles>>
+                  /\ Emit(<<PeEv(s), [e |-> "peret", s |-> s, act |-> "continue", us |-> Us]>>)
+             ELSE LET h == handles[s] IN
+                  /\ pingCnt' = [pingCnt EXCEPT ![s] = 0] /\ UNCHANGED <<closeBit, expired>>
+                  /\ IF h.q # <<>> \/ h.ended
+                     THEN /\ pc' = "incb" /\ dsp' = [dsp EXCEPT !.ops = MaxCbOps, !.ev = <<IF h.q # <<>> THEN 1 ELSE -1, 1, 0>>]
+                          /\ handles' = [handles EXCEPT ![s].q = IF h.q # <<>> THEN Tail(@) ELSE @]
+                          /\ cbCount' = [cbCount EXCEPT !.cb[s] = @ + 1]
+                          /\ Emit(<<PeEv(s), [e |-> "cb", s |-> s, sub |-> 0, p |-> IF h.q # <<>> THEN Head(h.q) ELSE -1,
+                                               k |-> cbCount.cb[s], us |-> Us]>>)
+                     ELSE /\ pc' = "post" /\ dsp' = [dsp EXCEPT !.ev = <<0, 0, 0>>, !.act = "continue"]
+                          /\ handles' = [handles EXCEPT ![s].wk = TRUE] /\ cbCount' = cbCount
+                          /\ Emit(<<PeEv(s), [e |-> "peret", s |-> s, act |-> "continue", us |-> Us]>>)
         ELSE IF KindOf(s) = "exec"
         THEN \* the inner ping source drains the eventfd and calls the run loop (clearing `notified` first)
              IF pingCnt[s] = 0
@@ -763,6 +794,28 @@ ChanCallbackEnd ==
                     /\ UNCHANGED <<handles, pingCnt, cbCount>>
                     /\ Emit(<<cbret, [e |-> "peret", s |-> s, act |-> "continue", us |-> Us]>>)
 
+\* a callback of a StreamSource returned: after None the source removes itself, otherwise poll_next again
+StreamCallbackEnd ==
+  /\ pc = "incb" /\ KindOf(dsp.disp) = "stream"
+  /\ UNCHANGED <<slots, lifeSet, pending, idles, issued, obj, heldD, enabled, gtok, kern, rdy, edgeq, closeBit, pingCnt,
+                 tdl, treg, heap, expired, nextCtr, now, steps, nfaults, nextIdle, failNext>>
+  /\ LET s == dsp.disp
+         h == handles[s]
+         cbret == [e |-> "cbret", s |-> s, ret |-> "none", arg |-> 0, us |-> Us]
+     IN IF dsp.ev[1] = -1
+        THEN /\ pc' = "post" /\ dsp' = [dsp EXCEPT !.ops = 0, !.act = "remove"]
+             /\ UNCHANGED <<handles, cbCount>>
+             /\ Emit(<<cbret, [e |-> "peret", s |-> s, act |-> "remove", us |-> Us]>>)
+        ELSE IF h.q # <<>> \/ h.ended
+        THEN /\ pc' = pc /\ dsp' = [dsp EXCEPT !.ops = MaxCbOps, !.ev = <<IF h.q # <<>> THEN 1 ELSE -1, 1, 0>>]
+             /\ handles' = [handles EXCEPT ![s].q = IF h.q # <<>> THEN Tail(@) ELSE @]
+             /\ cbCount' = [cbCount EXCEPT !.cb[s] = @ + 1]
+             /\ Emit(<<cbret, [e |-> "cb", s |-> s, sub |-> 0, p |-> IF h.q # <<>> THEN Head(h.q) ELSE -1,
+                                k |-> cbCount.cb[s], us |-> Us]>>)
+        ELSE /\ pc' = "post" /\ dsp' = [dsp EXCEPT !.ops = 0, !.act = "continue"]
+             /\ handles' = [handles EXCEPT ![s].wk = TRUE] /\ cbCount' = cbCount
+             /\ Emit(<<cbret, [e |-> "peret", s |-> s, act |-> "continue", us |-> Us]>>)
+
 \* a completion callback of the executor returned: the run loop goes on
 ExecCallbackEnd ==
   /\ pc = "incb" /\ KindOf(dsp.disp) = "exec"
@@ -784,7 +837,7 @@ ExecCallbackEnd ==
                 /\ Emit(<<cbret>> \o run.evs \o <<[e |-> "peret", s |-> s, act |-> "continue", us |-> Us]>>)
 
 CallbackEnd(ret) ==
-  /\ pc = "incb" /\ ret \in CbRetSet(dsp.disp) /\ KindOf(dsp.disp) \notin {"chan", "exec"}
+  /\ pc = "incb" /\ ret \in CbRetSet(dsp.disp) /\ KindOf(dsp.disp) \notin {"chan", "exec", "stream"}
   /\ LET s == dsp.disp
          act == CASE KindOf(s) = "ping" -> IF dsp.ev[1] = 1 THEN "remove" ELSE "continue"
                   [] KindOf(s) = "timer" -> IF ret = "drop" THEN "remove" ELSE "continue"
@@ -888,7 +941,7 @@ ApiOp ==
   \/ \E s \in S : Insert(s)
   \/ \E t \in DOMAIN issued : OpRemove(t)
   \/ \E t \in DOMAIN issued, n \in {"disable", "enable", "update"} : TokenOpGuard(n, t) /\ TokenOp(n, t)
-  \/ \E s \in S : Ping(s) \/ DropPing(s) \/ Send(s) \/ DropSender(s) \/ Schedule(s)
+  \/ \E s \in S : Ping(s) \/ DropPing(s) \/ Send(s) \/ DropSender(s) \/ Schedule(s) \/ Push("push", s) \/ Push("end_stream", s)
   \/ \E s \in S, f \in 11..39, n \in {"wake", "complete"} : WakeFut(n, s, f)
   \/ \E s \in S, c \in 1..2 : Wr(s, c) \/ Rd(s, c)
   \/ \E s \in S, d \in {now, now + 1, now + 5} : SetDeadline(s, d)
@@ -900,7 +953,7 @@ Next ==
   \/ Advance
   \/ \E s \in S, call \in {"register", "unregister", "reregister"} : Fault(s, call)
   \/ DispatchBegin \/ BeforeSleep \/ BsDone \/ Poll \/ BeforeHandle \/ BheDone
-  \/ Lookup \/ ProcessBegin \/ ChanCallbackEnd \/ ExecCallbackEnd \/ \E r \in Rets \cup TimerRets \cup {"none"} : CallbackEnd(r)
+  \/ Lookup \/ ProcessBegin \/ ChanCallbackEnd \/ ExecCallbackEnd \/ StreamCallbackEnd \/ \E r \in Rets \cup TimerRets \cup {"none"} : CallbackEnd(r)
   \/ PostAction \/ EventsDone \/ IdleBegin \/ IdleEnd \/ DispatchEnd
 
 Spec == Init /\ [][Next]_vars
